@@ -178,8 +178,27 @@ fn explore_scenario(r: &Report, scen: &Scenario, kind: SchedulerKind, max_set: u
         let n_conf = rt.accepted.iter().filter(|a| !**a).count();
         let mut first: Option<(Vec<u8>, Vec<Cand>)> = None;
         let mut n_seq = 0u64;
+        // (i) every covering sequence of length <= |set|+extra; (ii) "the whole set arrives twice":
+        // every permutation followed by every permutation (length 2|set|), which contains the
+        // interleaved re-enqueue patterns (X re-enqueued while not last, then the former last one)
+        // that single-duplicate sequences cannot form.
+        let mut all_seqs: Vec<Vec<usize>> = Vec::new();
         for len in set.len()..=set.len() + extra {
-            for s in mc::enumerate::covering_sequences(set.len(), len) {
+            all_seqs.extend(mc::enumerate::covering_sequences(set.len(), len));
+        }
+        if set.len() >= 2 {
+            let perms = mc::enumerate::all_permutations(set.len());
+            for p1 in &perms {
+                for p2 in &perms {
+                    let mut s2 = p1.clone();
+                    s2.extend_from_slice(p2);
+                    all_seqs.push(s2);
+                }
+            }
+            r.counter("double_arrival_sequences", (perms.len() * perms.len()) as u64);
+        }
+        {
+            for s in all_seqs {
                 let seq: Vec<Cand> = s.iter().map(|i| set[*i].0).collect();
                 n_seq += 1;
                 match run_tick(&scen.pre, &seq, kind, workers) {
